@@ -357,6 +357,10 @@ def run_case(case):
                 if any(j == i for (_, j) in H.inflight):
                     H.log.append(["sync", "RBusy"])
                 else:
+                    # the runner's only reference to the instance (completed calls hold none: results are integers /
+                    # payloads, exception tracebacks are cleared above).  The next call on slot i creates a fresh
+                    # instance - the next generation - which CPython places at the dead one's address if the cache
+                    # under test did not keep the dead one alive (alru_cache on a method: its key tuple does).
                     H.instances.pop(i, None)
                     wr = H.wrefs.pop(i, None)
                     if wr is not None and wr() is not None:
